@@ -474,7 +474,9 @@ impl Engine for LfoEngine {
 
 // ---------------------------------------------------------------------------------------------
 
-const FS_SPECIALS: [f32; 9] = [100.0, 1000.0, 8000.0, 10000.0, 22050.0, 44100.0, 48000.0, 96000.0, 192000.0];
+fn fs_specials() -> Vec<f32> {
+    COMMON_RATES.iter().copied().filter(|f| *f <= 192000.0).collect()
+}
 
 fn gen_freq(rng: &mut Rng, fs: f32, chaos: bool) -> f32 {
     let step = fs as f64 / TWO24; // frequency of one counter step per tick
@@ -516,7 +518,7 @@ fn random_run(rng: &mut Rng, prof: &Profile, run: u64, sink: &mut Sink<LfoEngine
     let fs = if chaos {
         *rng.pick(&[100.0f32, 192000.0, 192000.0, 44100.0])
     } else if rng.chance(0.6) {
-        *rng.pick(&FS_SPECIALS)
+        *rng.pick(&fs_specials())
     } else {
         rng.log_uniform(100.0, 192000.0) as f32
     };
@@ -639,7 +641,7 @@ fn random_run(rng: &mut Rng, prof: &Profile, run: u64, sink: &mut Sink<LfoEngine
 /// single-fault sweep: a seeded oscillator with a short cycle; one modulator / sync / reader event injected at
 /// every tick of one and a half cycles
 fn sweep_run(rng: &mut Rng, sink: &mut Sink<LfoEngine>) {
-    let fs = if rng.chance(0.6) { *rng.pick(&FS_SPECIALS) } else { rng.log_uniform(100.0, 192000.0) as f32 };
+    let fs = if rng.chance(0.6) { *rng.pick(&fs_specials()) } else { rng.log_uniform(100.0, 192000.0) as f32 };
     let per = rng.range(8, 48) as f64 + rng.f64();
     let f0 = (fs as f64 / per) as f32;
     let f1 = gen_freq(rng, fs, false);
